@@ -328,8 +328,13 @@ func runWorkers(b *build, prop string, p part, seed uint64, secs float64, a *agg
 			if err := cmd.Start(); err != nil {
 				die2("worker start: %v", err)
 			}
+			overrun := false
 			go func() {
-				<-stop
+				select {
+				case <-stop:
+				case <-time.After(time.Duration(secs+180) * time.Second):
+					overrun = true // stuck inside a run (e.g. a busy loop that never reaches a scheduling point)
+				}
 				cmd.Process.Kill()
 			}()
 			sc := bufio.NewScanner(out)
@@ -345,10 +350,15 @@ func runWorkers(b *build, prop string, p part, seed uint64, secs float64, a *agg
 				}
 			}
 			err := cmd.Wait()
+			if overrun {
+				a.mu.Lock()
+				a.incon["worker-died: a run did not end within the budget + 180 s (stuck outside the simulator's control)"]++
+				a.mu.Unlock()
+			}
 			select {
 			case <-stop:
 			default:
-				if err != nil {
+				if err != nil && !overrun {
 					a.mu.Lock()
 					a.incon["worker-died: "+firstLine(errb.String())]++
 					a.mu.Unlock()
